@@ -1133,10 +1133,13 @@ def rule_hasedge(m):
         if t[0] == 'mcall' and t[1] == LDG + '::hasEdge' and t[2] == ('this',):
             k = ctx.key_of(('pair', t[3][0], t[3][1]))
             a, b = t[3]
-            if a[0] == 'member' and b[0] == 'member' and a[1] == b[1] and a[2].endswith('first') and b[2].endswith('second'):
+            # the adjacency lists of the undirected class hold both orientations, so either component order finds the pair
+            if a[0] == 'member' and b[0] == 'member' and a[1] == b[1] and {a[2].rsplit('::', 1)[-1], b[2].rsplit('::', 1)[-1]} == {'first', 'second'}:
                 kk = ctx.key_of(a[1])
                 if kk and kk.ordered and {kk.a, kk.b} == {('var', f.params[0]), ('var', f.params[1])}:
                     ok = True
+            if {a, b} == {('var', f.params[0]), ('var', f.params[1])}:
+                ok = True
         if ok:
             res.ok(dict(function=f.display(), shape='Directed::hasEdge(orderedEdge(v1,v2))') if len(res.samples) < 4 else None,
                    fn=f.display())
@@ -1325,7 +1328,7 @@ def rule_observers(m):
                             for t in allterms:
                                 for st in subterms(t):
                                     if st[0] == 'mcall' and st[1].endswith(('::getEdgeMultiplicity', '::getEdgeLabel')) and \
-                                            st[3][:2] == (src, j):
+                                            (st[3][:2] == (src, j) or (f.record in UNDIRECTED_FAMILY and st[3][:2] == (j, src))):
                                         ok = True
                     elif outer and inner:
                         i = ('var', outer[0])
@@ -1339,7 +1342,8 @@ def rule_observers(m):
                                 for t in allterms:
                                     for st in subterms(t):
                                         if st[0] == 'mcall' and st[1].endswith(('::getEdgeMultiplicity', '::getEdgeLabel',
-                                                                                '::getEdgeWeight')) and st[3][:2] == (i, j):
+                                                                                '::getEdgeWeight')) and \
+                                                (st[3][:2] == (i, j) or (f.record in UNDIRECTED_FAMILY and st[3][:2] == (j, i))):
                                             ok = True
                                         if st[0] == 'var' and f.unit.decl(st[1])['dk'] == 'Var':
                                             defs = var_defs(f, st[1])
